@@ -125,6 +125,25 @@ async fn run_tcp_system_inner(plan: &Plan, atomic_handshake: bool, via_port: u16
     run.idle_sockets = world::with(|w| [w.open_sockets(rt::NODE_CLIENT), w.open_sockets(rt::NODE_SERVER)]);
     run.idle_tasks = [rt::alive_tasks_of(rt::NODE_CLIENT), rt::alive_tasks_of(rt::NODE_SERVER)];
 
+    // applications that begin a local handshake and leave it unfinished: the bytes are written, then the connection is closed
+    // or simply held. The client gives such a connection up at its 30 s handshake deadline at the latest.
+    let abandoned: Vec<(Vec<u8>, bool)> = plan.extra.get("abandoned_handshakes").and_then(|v| serde_json::from_value(v.clone()).ok()).unwrap_or_default();
+    let mut abandoned_guards = Vec::new();
+    for (bytes, close) in abandoned.iter().cloned() {
+        abandoned_guards.push(spawn_scoped(async move {
+            use tokio::io::AsyncWriteExt;
+            let Ok(mut s) = octo_squirrel::verif::net::TcpStream::connect(client_addr()).await else { return };
+            s.set_own_styles(0, 0);
+            let _ = s.write_all(&bytes).await;
+            if close {
+                let _ = s.shutdown().await;
+                // (a closed application no longer reads: the descriptor goes after a moment)
+                tokio::time::sleep(Duration::from_millis(200)).await;
+                drop(s);
+            }
+            std::future::pending::<()>().await;
+        }));
+    }
     let obs: Vec<Shared<FlowObs>> = plan.flows.iter().map(|_| Arc::new(Mutex::new(FlowObs::default()))).collect();
     let mut tasks = Vec::new();
     let skipped = |f: &TcpFlow| f.target_fault.as_deref() == Some("skip");
@@ -159,6 +178,13 @@ async fn run_tcp_system_inner(plan: &Plan, atomic_handshake: bool, via_port: u16
         tokio::time::sleep(Duration::from_millis(step)).await;
         waited += step;
     }
+    if !abandoned.is_empty() {
+        // past the client's handshake deadline for all of them
+        let now_ms = now_ns() / 1_000_000;
+        if now_ms < 36_000 {
+            tokio::time::sleep(Duration::from_millis(36_000 - now_ms)).await;
+        }
+    }
     if run.timed_out {
         run.stall_dump = dump_conns();
     } else {
@@ -167,8 +193,40 @@ async fn run_tcp_system_inner(plan: &Plan, atomic_handshake: bool, via_port: u16
         let ended = |o: &FlowObs| (o.app.end.is_some() || o.app.closed_ns.is_some()) && (o.target.end.is_some() || o.target.closed_ns.is_some() || o.target_accepts == 0);
         if plan.flows.iter().enumerate().all(|(ix, f)| skipped(f) || ended(&obs[ix].lock().unwrap())) {
             tokio::time::sleep(Duration::from_secs(if plan.config.transport == Transport::Quic { 50 } else { 20 })).await;
+            if plan.config.transport == Transport::Quic && plan.knobs.dgram_loss_pm > 0 {
+                // a QUIC connection whose peer has gone is given up by quinn's timers (30 s idle time-out, then the closing /
+                // draining period of three probe time-outs, which repeated loss has backed off): on a lossy datagram link that
+                // was seen to take 65 s after the connection's last packet. Those are the transport's clocks, not the relay's:
+                // the measurement waits for them (bounded), a task that is still there afterwards is held by the relay.
+                for _ in 0..70 {
+                    if rt::alive_tasks_of(rt::NODE_SERVER) == run.idle_tasks[1] && rt::alive_tasks_of(rt::NODE_CLIENT) == run.idle_tasks[0] {
+                        break;
+                    }
+                    tokio::time::sleep(Duration::from_secs(1)).await;
+                }
+            }
             run.mid_sockets = Some(world::with(|w| [w.open_sockets(rt::NODE_CLIENT), w.open_sockets(rt::NODE_SERVER)]));
             run.mid_tasks = Some([rt::alive_tasks_of(rt::NODE_CLIENT), rt::alive_tasks_of(rt::NODE_SERVER)]);
+            if std::env::var_os("VERIF_DEBUG_MID").is_some() {
+                eprintln!("MID at {:.3} s: tasks {:?} idle {:?} sockets {:?} idle {:?}", now_ns() as f64 / 1e9, run.mid_tasks, run.idle_tasks, run.mid_sockets, run.idle_sockets);
+                for (ix, o) in obs.iter().enumerate() {
+                    let o = o.lock().unwrap();
+                    eprintln!("  flow {ix}: app end {:?} at {:.3} closed {:?}; target end {:?} at {:.3} closed {:?} accepts {}", o.app.end, o.app.end_ns as f64 / 1e9, o.app.closed_ns.map(|x| x as f64 / 1e9), o.target.end, o.target.end_ns as f64 / 1e9, o.target.closed_ns.map(|x| x as f64 / 1e9), o.target_accepts);
+                }
+                for s in 0..60 {
+                    if rt::alive_tasks_of(rt::NODE_SERVER) == run.idle_tasks[1] {
+                        eprintln!("  server tasks back at idle {s} s after the mid measurement, at {:.3}", now_ns() as f64 / 1e9);
+                        break;
+                    }
+                    tokio::time::sleep(Duration::from_secs(1)).await;
+                }
+                world::with(|w| {
+                    let n = w.udp_sends.len();
+                    for r in &w.udp_sends[n.saturating_sub(40)..] {
+                        eprintln!("  UDP t={:.3} n{} {} -> {} len {} fate {}", r.t_ns as f64 / 1e9, r.node, r.from, r.to, r.len, r.fate);
+                    }
+                });
+            }
             if run.mid_sockets != Some(run.idle_sockets) {
                 run.mid_dump = dump_conns();
             }
@@ -189,6 +247,7 @@ async fn run_tcp_system_inner(plan: &Plan, atomic_handshake: bool, via_port: u16
         run.end_dump = dump_conns();
     }
     run.mains_finished = (mains.client.is_finished(), mains.server.is_finished());
+    drop(abandoned_guards);
     for o in obs {
         let mut g = o.lock().unwrap();
         run.flows.push(std::mem::take(&mut *g));
